@@ -771,11 +771,13 @@ func (b *bitstream) readDecimal(length uint64) (*Decimal, error) {
 	}
 
 	if length > 0 {
-		if err := b.readBigInt(length, coef); err != nil {
+		neg, err := b.readBigInt(length, coef)
+		if err != nil {
 			return nil, err
 		}
 
-		negZero = coef.Sign() == 0
+		// Only a zero coefficient with the sign bit set is negative zero; 0x00 is plain zero.
+		negZero = neg && coef.Sign() == 0
 	}
 
 	return NewDecimal(coef, int32(exp), negZero), nil
@@ -860,10 +862,12 @@ func (b *bitstream) clear() {
 
 // ReadBigInt reads a fixed-length integer of the given length and stores
 // the value in the given big.Int.
-func (b *bitstream) readBigInt(length uint64, ret *big.Int) error {
+// It also reports whether the sign bit was set, which for a zero magnitude is the only
+// place the sign survives.
+func (b *bitstream) readBigInt(length uint64, ret *big.Int) (bool, error) {
 	bs, err := b.readN(length)
 	if err != nil {
-		return err
+		return false, err
 	}
 
 	neg := bs[0]&0x80 != 0
@@ -877,7 +881,7 @@ func (b *bitstream) readBigInt(length uint64, ret *big.Int) error {
 		ret.Neg(ret)
 	}
 
-	return nil
+	return neg, nil
 }
 
 // ReadVarUint reads a variable-length-encoded uint.
